@@ -28,6 +28,9 @@ func c09Gen(c *vfCtx, emit func(c09Case)) {
 	}
 	staleFileChoices := []string{"stale.snap", "TestOld_1.snap", "x.snap.bak", "custom.snap.txt"}
 	counts := []int{1, 2}
+	if c.thorough() {
+		counts = []int{1, 2, 3}
+	}
 	for mask := 0; mask < 1<<len(staleEntryChoices); mask++ {
 		for fmask := 0; fmask < 1<<len(staleFileChoices); fmask++ {
 			if !c.thorough() && fmask != 0 && fmask != 15 && fmask != 1<<uint(mask%4) {
